@@ -10,7 +10,7 @@ import (
 
 // ---- filter configurations ---------------------------------------------------------------------------
 
-// 31 fixed configurations (index = tag cfg:kNN); every one is exercised in the quick tier.
+// 34 fixed configurations (index = tag cfg:kNN); every one is exercised in the quick tier.
 var scopeCfgs = []scInput{
 	{},                          // 0 defaults only (archive.org, archive-it.org)
 	{EH: []string{"ads."}},      // 1
@@ -43,6 +43,9 @@ var scopeCfgs = []scInput{
 	{IH: []string{"127.0.0.2", "localhost", "nodot"}}, // includes cannot re-admit what NormalizeURL refuses
 	{EH: []string{"."}},                               // every dotted host
 	{IS: []string{"user"}, EH: []string{"evil"}},      // 30 userinfo is part of the text, not of the host
+	{RE: []string{`\?flag=$`}},                        // matches URL.String() (query re-encoded: "?flag" -> "?flag="), not ada's href
+	{RE: []string{`\?flag$`, `%7C`}},                  // matches ada's href only / String() only
+	{ES: []string{"b=2&"}, RE: []string{`\+`}},        // "?a=b c": href has %20, String() has +
 }
 
 var (
@@ -50,7 +53,7 @@ var (
 	poolIS = []string{"/keep/", ".png", ".css", "https://", "?id=", "user", "%41"}
 	poolEH = []string{"ads.", "b.example", "evil", "example.com:8080", "127.0.0.2", "xn--", ".", "cdn.example.com", "archive.org", "EXAMPLE", "bad"}
 	poolES = []string{"logout", "/private/", ".pdf", "%20", "#", "", "id=7", "@"}
-	poolRE = []string{`\.pdf$`, `^https?://[^/]*\.bad\.`, `/private/`, `(?i)logout`, `[0-9]{4}`, `^http://`, ``, `\.(png|css)(\?|$)`, `@`}
+	poolRE = []string{`\?flag=$`, `\?flag$`, `\+`, `\.pdf$`, `^https?://[^/]*\.bad\.`, `/private/`, `(?i)logout`, `[0-9]{4}`, `^http://`, ``, `\.(png|css)(\?|$)`, `@`}
 )
 
 func pickSome(r *Rng, pool []string, max int) []string {
@@ -80,11 +83,12 @@ var (
 		"javascript://a.example/%0aalert(1)", "urn:isbn:123", "mailto:x@archive.org"}
 	pathsPool = []string{"", "/", "/a.png", "/keep/a.png", "/private/x.html", "/doc.pdf", "/doc.pdf?x=1", "/logout", "/LogOut",
 		"/a/b/../c.css", "/p%41th/x", "/a b/c", "/é.png", "/2024/img.png", "/x?id=7", "/keep/x#frag", "//double", "/%2e%2e/x",
-		"/a;b=c", "/x?u=http://archive.org/", "/x?next=logout", "/x.css?v=1", "/?", "/#", "?q=1", "#top", "/x?a=1&b=2"}
+		"/a;b=c", "/x?u=http://archive.org/", "/x?next=logout", "/x.css?v=1", "/?", "/#", "?q=1", "#top", "/x?a=1&b=2",
+		"/x?flag", "/y.png?flag", "/z?a=b c", "/z?b=2&a=1", "/w|x.png", "/z?flag=&k"}
 	userinfos = []string{"", "", "", "", "", "", "", "", "", "", "user@", "user:pw@", "archive.org@", "ads.@", "a%40b@", "@"}
 	ports     = []string{"", "", "", "", "", "", "", "", ":80", ":443", ":8080", ":8080", ":0", ":65535", ":99999", ":abc", ":"}
 	relRefs   = []string{"x.png", "./x.css", "../up/x.js", "a/b/c.png", "/abs/x.png", "/", "", "?q=1", "#f", "/keep/r.png", "/private/r.png",
-		"logout", "r%20s.png", "a:b", "x.pdf", "/doc.pdf", "..", "."}
+		"logout", "r%20s.png", "a:b", "x.pdf", "/doc.pdf", "..", ".", "?flag", "/y.png?flag", "z?a=b c"}
 )
 
 func pick(r *Rng, l []string) string { return l[r.Intn(len(l))] }
